@@ -349,6 +349,10 @@ fn choose_bits(rng: &mut Rng, prop: &str, tier: Tier, algo: Algo) -> u32 {
         (Tier::Thorough, Algo::Ecm) => (24, 128),
         (Tier::Thorough, _) => (24, 160),
     };
+    // MPQS re-targets several times on mid-size inputs (flag races need several completion checks)
+    if algo == Algo::Mpqs && (prop == "C04" || prop == "C02") && rng.chance(0.5) {
+        return rng.range(80, hi.min(108) as u64) as u32;
+    }
     // contention: small inputs finish within a few polynomials
     if prop == "C04" && rng.chance(0.35) {
         return rng.range(lo as u64, (lo + 30) as u64) as u32;
@@ -371,8 +375,8 @@ pub fn gen_spec(rng: &mut Rng, prop: &str, tier: Tier) -> Spec {
     }
     let algos = [Algo::Auto, Algo::Siqs, Algo::Mpqs, Algo::Qs, Algo::Ecm];
     let w: [u32; 5] = match prop {
-        "C02" => [55, 17, 6, 10, 12],
-        "C04" => [20, 45, 7, 10, 18],
+        "C02" => [52, 16, 10, 10, 12],
+        "C04" => [18, 40, 14, 10, 18],
         "C05" => [32, 32, 8, 22, 6],
         _ => [34, 32, 8, 20, 6],
     };
@@ -647,7 +651,30 @@ pub struct SubCtx<'a> {
     pub is_reference: bool,
 }
 
+/// Bit sizes of the composite entries of an answer (FactoringFailure = n itself unsplit).
+fn unsplit_bits(spec: &Spec, ans: &Option<Answer>) -> Vec<u32> {
+    match ans {
+        None => vec![],
+        Some(Answer::Failure) => vec![spec.n.bits()],
+        Some(Answer::Factors(l)) => l
+            .iter()
+            .filter(|f| !spec.primes.iter().any(|&p| Uint::from(p) == **f))
+            .map(|f| f.bits())
+            .collect(),
+    }
+}
+
 fn replay_json(ctx: &SubCtx, out: &RunOut) -> Value {
+    let ub = unsplit_bits(ctx.spec, &out.answer);
+    let all_small = !ub.is_empty() && ub.iter().all(|&b| b < 40);
+    let mut v = replay_json_inner(ctx, out);
+    v["observed"]["unsplit_composite_bits"] = json!(ub);
+    // forced sieve selectors are documented as tested on 40-330 bits only (README)
+    v["observed"]["all_unsplit_entries_below_40_bits"] = json!(all_small);
+    v
+}
+
+fn replay_json_inner(ctx: &SubCtx, out: &RunOut) -> Value {
     json!({
         "family": "factor",
         "property": ctx.prop,
@@ -900,7 +927,7 @@ impl Family for FactorFamily {
         let mut nsub = subruns(prop, tier);
         if spec.algo == Algo::Mpqs {
             // a threaded MPQS call drains a 100 000-item range: expensive, smaller share
-            nsub = nsub.min(6);
+            nsub = nsub.min(10);
         }
         if ref_steps > 20_000 {
             // expensive scenario (deterministic criterion): fewer schedules
@@ -1102,6 +1129,9 @@ impl Family for FactorFamily {
                 r["trace"] = trace_to_json(&out.sim);
                 r["observed"]["end"] = json!(out.sim.end.class());
                 r["observed"]["answer"] = answer_json(&out.answer);
+                let ub = unsplit_bits(&spec, &out.answer);
+                r["observed"]["all_unsplit_entries_below_40_bits"] = json!(!ub.is_empty() && ub.iter().all(|&b| b < 40));
+                r["observed"]["unsplit_composite_bits"] = json!(ub);
                 Violation {
                     property: prop.clone(),
                     oracle,
